@@ -77,6 +77,25 @@ theorem C42_sticky_run (dec : Nat → UInt8 → Bytes → Dec) (vers : UInt8 × 
     readMore dec vers k (runStream dec vers w) = ([], List.replicate k (some e)) :=
   C42_sticky dec vers _ e he k
 
+/-- **C42_version_guard.**  Header integrity of the VERSION bytes rests on `readRecord`'s exact comparison
+    `vers != c.vers`, not on the keyed check: the model's `dec` does not see the header version at all, which is the
+    SSL 3.0 situation (ssl30MAC covers type and length but not the version; for TLS 1.0+ the MAC / the AEAD
+    additional data cover it as well, which is part of `Authentic` there).  A record whose header version differs
+    from the negotiated one in EITHER byte is rejected before decrypt is consulted: error "received record with
+    version …", sequence number and delivered bytes unchanged, and every later Read returns the same error.
+    (Type and length: the type is an argument of `dec`, so `Authentic` covers it; the length is the framing itself —
+    both are part of `C42_accepts_only_honest_prefix`, whose accepted frames equal the honest ones byte for byte.) -/
+theorem C42_version_guard (dec : Nat → UInt8 → Bytes → Dec) (vers : UInt8 × UInt8) (t v1 v2 l1 l2 : UInt8)
+    (rest : Bytes) (st : St) (fuel : Nat) (hraw : st.raw = t :: v1 :: v2 :: l1 :: l2 :: rest) (hv : (v1, v2) ≠ vers) :
+    readRecord dec vers (fuel + 1) st = { st with err := some .badvers } ∧
+    ∀ k, readMore dec vers k (readRecord dec vers (fuel + 1) st) = ([], List.replicate k (some .badvers)) := by
+  have hres : readRecord dec vers (fuel + 1) st = { st with err := some .badvers } := by
+    rw [readRecord, hraw]
+    simp only []
+    rw [if_pos hv]
+  refine ⟨hres, fun k => ?_⟩
+  exact C42_sticky _ _ _ _ (by rw [hres]) k
+
 /-- **C42_short_record_rejected.**  A record whose body is shorter than the cipher family's minimum (explicit
     nonce + tag for AEAD; roundUp(explicitIV + MAC + 1, blockSize) for CBC; the MAC for RC4) — injected, or a real
     record with a shrunk length field — is rejected by decrypt's key-independent length checks, whatever the keyed
